@@ -376,9 +376,33 @@ def r7(tree, rep, tier):
             raise AnalysisError("the dilation environment exercised only %d Manager rows" % len(mrows))
 
 
+def r8(tree, prog, rep):
+    """Manager CONNECTED.stop only abandons the connection - the Connector is not stopped again - so the attempts that lost the
+    race must have been shut down when the winner was selected"""
+    CTR = "src/wormhole/_dilation/connector.py"
+    sa = tree.func(CTR, "Connector", "select_and_stop_remaining")
+    g = build(sa)
+    for callee in ("self.stop_listeners", "self.stop_pending_connectors", "self.stop_pending_connections"):
+        n = g.call_nodes(lambda c, callee=callee: dotted(c.func) == callee)
+        rep.check("C17.R8", "selecting the winner calls %s on every path" % callee.split(".")[1], len(n) >= 1 and g.must_pass(n, explicit_only=True),
+                  site(sa, CTR), key="C17.R8:select:%s" % callee.split(".")[1],
+                  what="attempts that lost the race survive the selection; close() in CONNECTED never stops them (they outlive the closed notification)")
+    C = prog.machine("Connector")
+    rows = [r for r in C.rows.values() if "select_and_stop_remaining" in r.outputs]
+    rep.check("C17.R8", "the winner is selected through select_and_stop_remaining", len(rows) >= 1, C.file, key="C17.R8:select-row")
+    M = prog.machine("Manager")
+    r = M.row("CONNECTED", "stop")
+    from ..tablerules import row_calls
+    stops_connector = r is not None and any(c.endswith("_connector.stop") for c in row_calls(M, r))
+    rep.check("C17.R8", "Manager CONNECTED.stop abandons the connection (the Connector has already shut the rest down%s)" % (
+        ", and is stopped again" if stops_connector else ""), r is not None and "abandon_connection" in r.outputs, r.site if r else M.file,
+        key="C17.R8:connected-stop")
+
+
 def run(tree, rep, tier):
     prog = Program(tree)
     r1_r2(prog, rep)
+    r8(tree, prog, rep)
     r3(tree, prog, rep)
     r4(tree, rep)
     r5(tree, rep)
